@@ -823,8 +823,8 @@ func edgeBlocked(fl *Flow, b, s *ssa.BasicBlock, blocked func([]Fact) bool, dept
 				switch {
 				case isNilConst(v):
 					return truth
-				case knownNonNilError(v):
-					return !truth
+				case knownNonNilError(v) || cfl.At(r)[neqFact(cfl.K.Key(v), "nil")]:
+					return !truth // (also: the helper has just tested it to be non-nil)
 				case truth:
 					// `return f(..)`: nil iff f returned nil
 					fs := []Fact{eqFact(cfl.K.Key(v), "nil")}
